@@ -216,8 +216,10 @@ Fixpoint parse (ds : list doc) : option (list op) :=
 Inductive verb := VCreate | VGet | VUpdate | VPatch | VDelete.
 Definition call := (verb * key * bytes)%type.          (* verb, object, subresource *)
 
-(* [EOther]: any other error text; the model never produces it *)
-Inductive err := EAlreadyExists | ENotFound | EPatchFailed | EJqFailed | EOther.
+(* [ENotServed]: the cluster does not serve the apiVersion / kind the operation names
+   (only operations of C13_GModel can produce it); [EOther]: any other error text; the
+   model never produces it *)
+Inductive err := EAlreadyExists | ENotFound | EPatchFailed | EJqFailed | ENotServed | EOther.
 
 Definition api_create (c : cluster) (k : key) (obj : json) : cluster * option err :=
   match cl_get k c with Some _ => (c, Some EAlreadyExists) | None => (cl_set k obj c, None) end.
@@ -237,8 +239,7 @@ Definition result := (cluster * list call * option err)%type.
 
 (* executeCreateOperation (patch.go:81-148).  The spec's subresource is not passed to
    create operations by NewFromOperationSpec. *)
-Definition exec_create (c : cluster) (m : create_mode) (obj : json) : result :=
-  let k := key_of_object obj in
+Definition exec_create_at (c : cluster) (m : create_mode) (k : key) (obj : json) : result :=
   match api_create c k obj with
   | (c', None) => (c', [(VCreate, k, [])], None)
   | (_, Some e) =>                                     (* AlreadyExists is the only failure *)
@@ -251,6 +252,12 @@ Definition exec_create (c : cluster) (m : create_mode) (obj : json) : result :=
       (c', [(VCreate, k, []); (VGet, k, []); (VUpdate, k, [])], e')
     end
   end.
+
+(* [k] is where the object lands: the resource resolved from the object's apiVersion and
+   kind, the object's namespace and name.  With every kind served in one group only, that
+   is [key_of_object]; C13_GModel resolves it against the cluster's discovery. *)
+Definition exec_create (c : cluster) (m : create_mode) (obj : json) : result :=
+  exec_create_at c m (key_of_object obj) obj.
 
 (* executeDeleteOperation (patch.go:262-305): NotFound is ignored; Foreground waits
    (first poll after one second) until a Get says NotFound. *)
